@@ -1,5 +1,6 @@
 pub mod c05;
 pub mod c17;
+pub mod roundtrip;
 
 use crate::runner::{Campaign, PropertyRun};
 
@@ -16,8 +17,18 @@ pub fn property(id: &str) -> Option<PropertyRun> {
             parts: vec![Box::new(Campaign(c17::C17))],
             assumptions: vec![window_note, "the checker's evaluator and free-variable computation are the trusted base".into()],
         },
+        "C14" => PropertyRun {
+            id: id.into(),
+            parts: vec![Box::new(Campaign(roundtrip::C14))],
+            assumptions: vec!["input text comes from the checker's own printer; trees outside the image of the parser are never required to round-trip".into()],
+        },
+        "C15" => PropertyRun {
+            id: id.into(),
+            parts: vec![Box::new(Campaign(roundtrip::C15)), Box::new(Campaign(roundtrip::C15Outputs))],
+            assumptions: vec!["input text comes from the checker's own printer; trees outside the image of the parser are never required to round-trip".into()],
+        },
         _ => return None,
     })
 }
 
-pub const ALL: &[&str] = &["C05", "C17"];
+pub const ALL: &[&str] = &["C05", "C14", "C15", "C17"];
